@@ -110,6 +110,17 @@ def witnesses(tier, seed):
             axes = [rng.choice(f) for f in fams]
             if admissible(axes, dims):
                 W.append(mk_write(T3[k % 3], list(dims), axes, ALLOPS[k % 5], ['scalar', 'tensor', 'expr'][k % 3]))
+    # right-hand sides of a DIFFERENT rank with the same number of elements (separate OTHER_DIMS != DIMS overloads of every view class;
+    # coverage accounting showed them unreached): rank-2/3 views of both kinds get a rank-1 tensor / expression, rank-1 views a 1 x n one
+    k = 0
+    for (dims, axsets) in [([4, 6], [[Axis('seq', 0, 4, 1), Axis('seq', 1, 5, 1)], [Axis('seq', 1, 4, 2), Axis('seq', 0, 6, 2)], [Axis('fseq', 0, 4, 1), Axis('fseq', 2, 6, 1)], [Axis('fseq', 0, 4, 2), Axis('fseq', 0, 6, 3)]]),
+                           ([2, 3, 8], [[Axis('seq', 0, 2, 1), Axis('seq', 1, 3, 1), Axis('seq', 0, 8, 2)], [Axis('fseq', 0, 2, 1), Axis('fseq', 0, 3, 2), Axis('fseq', 0, 8, 1)]]),
+                           ([9], [[Axis('seq', 1, 9, 2)], [Axis('fseq', 0, 8, 1)]])]:
+        for axes in axsets:
+            for op in ALLOPS:
+                for rhs in ('flat', 'flatexpr'):
+                    k += 1
+                    W.append(mk_write(T3[k % 3], dims, axes, op, rhs))
     return group_sort(W)
 
 
